@@ -59,6 +59,14 @@ CLAIMED["C15"] = dict(
     note=TRUST + " Assumes sha256 collision freedom on the hash views of one history; 'interface-visible change' is abstracted to a version number.",
 )
 
+CLAIMED["C16"] = dict(
+    technique="Coq proofs: the DFS topological sort model yields a dependency-respecting order (so mutual imports are rejected) and, from the orphan rule + visibility + per-package uniqueness, global coherence of trait impls; differential correspondence of acceptance verdicts with the real compiler on systematic package/impl placements, inside coqc",
+    text="at_most_one_impl_per_trait_and_type: for every accepted import graph and every list of impl blocks that passes the orphan rule, the visibility rule and the per-package duplicate check, no two impls share a (trait, type) pair (no axioms) — proved through topo_respects_deps for the DFS model of topo_sort_packages. "
+         "The model's predicates (is_local_name / is_local_nominal_type / package_allowed / duplicate checks / cycle detection) are tied to the code by compiling 4-package projects with every placement of an impl of a foreign or own trait for 8 kinds of types and of qualified references, and comparing the accepted / cycle / visibility / orphan / duplicate verdicts.",
+    design_ref="DESIGN.md §4 C16",
+    note=TRUST + " Items are abstract (traits, nominal types, impl headers, qualified references); generic impls are outside the placements.",
+)
+
 NOT_YET = {}
 
 def main():
